@@ -458,6 +458,14 @@ macro_rules! construct {
                 $front = Ok($front?);
             }
             $(let $fields = $fields.eval(args);)*
+            // help or version requested inside of a nested command wins over
+            // failures in the other fields
+            $(let $fields = match $fields {
+                ::std::result::Result::Err(err) if err.is_stdout() => {
+                    return ::std::result::Result::Err(err);
+                }
+                other => other,
+            };)*
             let $front = $front?;
             $(let $fields = $fields?;)*
 
